@@ -47,8 +47,21 @@ def one_history(h):
                 else:
                     steps.append({'do': b, 'count': 50, 'hold_ms': 120})
             steps.append({'do': 'valid', 'connect_tries': 3})
-            out = C.vtool('alpnclient', [{'target': listen, 'sni': h['want_name'], 'steps': steps, 'seed': h['i'] + 1,
-                                          'pause_ms': 15}])
+            # a generous deadline for the whole history: what it plays on purpose (waits, slow clients, shortages) plus ten seconds per step
+            budget = 120 + 10 * len(steps) + sum(float(''.join(ch for ch in b if ch.isdigit() or ch == '.') or 0) for b in h['seq']
+                                                 if b.startswith(('slow', 'wait', 'fdflood')))
+            import subprocess
+            try:
+                out = C.vtool('alpnclient', [{'target': listen, 'sni': h['want_name'], 'steps': steps, 'seed': h['i'] + 1,
+                                              'pause_ms': 15}], timeout=budget)
+            except subprocess.TimeoutExpired:
+                # the client made no progress (a connect() or a handshake that never returns): the responder has stopped serving
+                res['client_stuck'] = True
+                res['alive'] = t.alive()
+                res['rc'] = t.p.poll()
+                res['problems'].append('the client got stuck for more than %d s in this history (tacd %s): it no longer accepts or answers connections' % (
+                    budget, 'still running' if t.alive() else 'gone, status %s' % t.p.poll()))
+                return res
             st = out[0]['steps']
             res['executed'] = [s.get('do') for s in st[:-1] if s.get('connected')]
             if any(b.startswith('slow') for b in h['seq']):
@@ -132,6 +145,12 @@ def run(tier):
     chk = C.Check('C17', LEVEL, tier)
     hs, exhaustive = gen_histories(tier)
     results = C.parallel(hs, one_history)
+    # a stuck client is a deadline verdict: it has to happen again on an immediate re-run of the same history to count
+    for k, res in enumerate(results):
+        if res.get('client_stuck'):
+            again = one_history(res['history'])
+            if not again.get('client_stuck'):
+                results[k] = dict(again, infra='a client stuck once in history %s, not on the re-run' % '>'.join(res['history']['seq'])) if not again['problems'] else again
     for res in results:
         h = res['history']
         if 'infra' in res:
